@@ -12,7 +12,7 @@ contains every simulation already recorded in the file (it may have grown), a ta
 not below the recorded counts, and a save frequency ≥ 1; nobody else writes the file.
 Crash schedules, interrupt schedules, save frequencies, numbers of restarts are unrestricted.
 -/
-import PanqecVerif.Proofs.BatchInv
+import PanqecVerif.Proofs.BatchLive
 
 namespace Panqec.C12
 
@@ -162,6 +162,65 @@ theorem adoption_takes_first_match (d : Doc) (x : Nat) (pre : List Sim) (r : Sim
 theorem every_requested_record_is_adopted (d : Doc) (hn : (d.map (·.inputs)).Nodup) (r : Sim)
     (hr : r ∈ d) : loadSim (some d) r.inputs = r :=
   loadSim_of_mem hn hr
+
+/-- **An uninterrupted restart runs to completion**: after any admissible history (kills at any
+    micro-step, interrupts, earlier restarts), a new process started with an admissible
+    specification reaches `done` after finitely many micro-steps, if it is left alone. -/
+theorem uninterrupted_restart_completes (fmt : Fmt) (evs : List Ev)
+    (hok : AllOK (World.init fmt true) evs) (spec : List Nat) (n sf : Nat)
+    (hs : EvOK (after fmt evs) (.start spec n sf)) :
+    ∃ k, AllOK (World.init fmt true) (evs ++ [.start spec n sf] ++ List.replicate k .step) ∧
+      (after fmt (evs ++ [.start spec n sf] ++ List.replicate k .step)).proc.pc = .done ∧
+      (after fmt (evs ++ [.start spec n sf] ++ List.replicate k .step)).proc.spec = spec ∧
+      (after fmt (evs ++ [.start spec n sf] ++ List.replicate k .step)).proc.n = n := by
+  have h := (inv_run evs (inv_init fmt) hok).1
+  obtain ⟨hi, _⟩ := inv_start h hs
+  have hq : (startProc (after fmt evs) spec n sf).proc.pc.quiet = true := by
+    rcases start_quiet (after fmt evs) spec n sf with a | ⟨e, he⟩
+    · exact a
+    · have := hi.loopOK
+      simp only [LoopOK, he] at this
+  obtain ⟨k, hk, _, _⟩ := reaches_done _ hi hq
+  have hrun : after fmt (evs ++ [.start spec n sf] ++ List.replicate k .step) =
+      stepN k (startProc (after fmt evs) spec n sf) := by
+    simp only [after, runEvs_append, stepN_eq_runEvs]
+    rfl
+  refine ⟨k, ?_, ?_, ?_, ?_⟩
+  · rw [allOK_append, allOK_append]
+    exact ⟨⟨hok, hs, trivial⟩, allOK_steps k _⟩
+  · rw [hrun]; exact hk
+  · rw [hrun]; exact (stepN_spec_n k _).1.trans (start_spec_n _ _ _ _).1
+  · rw [hrun]; exact (stepN_spec_n k _).2.trans (start_spec_n _ _ _ _).2
+
+/-- **The statement of C12 in one theorem**: after any admissible history, running the
+    (possibly grown) specification again with a target `n ≥ 1` completes without error, and the
+    results file then holds, for every requested simulation, exactly `n` trials with equally long
+    lists, all records of the file as it was before the restart (= the last completed save) are
+    unchanged prefixes, and no trial occurs twice. -/
+theorem resume_is_correct (fmt : Fmt) (evs : List Ev)
+    (hok : AllOK (World.init fmt true) evs) (spec : List Nat) (n sf : Nat) (hn : 1 ≤ n)
+    (hs : EvOK (after fmt evs) (.start spec n sf)) :
+    ∃ k, let w' := after fmt (evs ++ [.start spec n sf] ++ List.replicate k .step)
+      w'.proc.pc = .done ∧
+      (∃ d, w'.disk.file = .complete d) ∧
+      (∀ x ∈ spec, ∃ r ∈ fileDoc w'.disk.file, r.inputs = x ∧ r.nRuns = n ∧
+        r.ee.length = n ∧ r.su.length = n ∧ r.cs.length = n) ∧
+      (∀ r ∈ fileDoc (after fmt evs).disk.file, ∃ r' ∈ fileDoc w'.disk.file,
+        r'.inputs = r.inputs ∧ r.ee <+: r'.ee ∧ r.su <+: r'.su ∧ r.cs <+: r'.cs) ∧
+      ((fileDoc w'.disk.file).flatMap (·.ee)).Nodup := by
+  obtain ⟨k, hok', hdone, hspec, hnn⟩ := uninterrupted_restart_completes fmt evs hok spec n sf hs
+  refine ⟨k, hdone, ?_, ?_, ?_, ?_⟩
+  · have := (completed_run_exact_counts_file fmt _ hok' hdone (by rw [hnn]; exact hn)).1
+    rw [hspec] at this
+    exact this hs.1
+  · have := (completed_run_exact_counts_file fmt _ hok' hdone (by rw [hnn]; exact hn)).2
+    rw [hspec, hnn] at this
+    exact this
+  · have := last_completed_save_is_prefix fmt evs ([.start spec n sf] ++ List.replicate k .step)
+      (by rw [← List.append_assoc]; exact hok')
+    rw [← List.append_assoc] at this
+    exact this
+  · exact (no_trial_counted_twice fmt _ hok').2.1
 
 /-! ### non-vacuity: the hypotheses hold on concrete, non-trivial schedules -/
 
